@@ -26,8 +26,13 @@ SETS = {
                                                       conn("quic", (4, 40000), (2, 443), odcid="<<7,3>>", ccid="<<9,9>>", scid="<<9,9>>")],
     "quic whose new cid extends its old cid (prefix within one side)": [conn("quic", (1, 40000), (2, 443), odcid="<<7,1>>", ccid="<<1,1>>", scid="<<5,5>>", ncid="<<5,5,6>>"),
                                                                        conn("quic", (1, 40001), (2, 443), odcid="<<7,2>>", ccid="<<2>>", scid="<<5>>")],
+    "late quic (handshake before the capture start) next to quic with empty cids": [
+        conn("quic", (1, 40000), (2, 443), odcid="<<7,1>>", ccid="<<>>", scid="<<5,5>>"),
+        conn("quic", (3, 40001), (2, 443), odcid="<<7,2>>", ccid="<<4>>", scid="<<6,6>>"),
+        conn("quic", (1, 40002), (2, 443), odcid="<<7,3>>")],
 }
+LATE = {"late quic (handshake before the capture start) next to quic with empty cids": "{2}"}
 
 
 def consts(name, repaired=True):
-    return dict(Conns="<<%s>>" % ", ".join(SETS[name]), Repaired="TRUE" if repaired else "FALSE", ServerPorts="{443, 44330}")
+    return dict(Conns="<<%s>>" % ", ".join(SETS[name]), Repaired="TRUE" if repaired else "FALSE", ServerPorts="{443, 44330}", Late=LATE.get(name, "{}"))
